@@ -236,6 +236,8 @@ impl<H: Hal, T: Transport> VirtIOConsole<H, T> {
         self.poll_retrieve()?;
         while self.cursor == self.pending_len {
             self.finish_receive()?;
+            #[cfg(virtio_drivers_verif)]
+            crate::verif::emit(crate::verif::Event::Spin(4));
         }
         Ok(())
     }
